@@ -16,19 +16,20 @@ Cls == IF Busy THEN (IF pick <= 50 THEN {"pass"} ELSE IF pick <= 64 THEN {"reg"}
              ELSE {"reg", "feed", "cancel", "due", "release"})
 Redraw == pick' = RandomElement(1..100)
 
-SReg(c, s, api, fails) == "reg" \in Cls /\ (fails => pick % 3 = 0) /\ Reg(c, s, api, fails) /\ Redraw
+SReg(c, s, api, fails, tm) == "reg" \in Cls /\ (fails => pick % 3 = 0) /\ Reg(c, s, api, fails, tm) /\ Redraw
 SFeed(b, sl) == "feed" \in Cls /\ Len(b) = 1 + (pick % MaxBatch) /\ (sl > 0 => pick % 2 = 0) /\ Feed(b, sl) /\ Redraw
 SRelease(conn) == "release" \in Cls /\ Release(conn) /\ Redraw
 SCancel(c) == "cancel" \in Cls /\ Cancel(c) /\ Redraw
 SDue(c) == "due" \in Cls /\ Due(c) /\ Redraw
+SElapse(c) == "due" \in Cls /\ Elapse(c) /\ Redraw
 SDStep == DStep /\ Redraw              \* always possible: a class with nothing enabled cannot end the run
 SObserve == Observe /\ Redraw
 SRun == Run /\ UNCHANGED pick
 
 SimNext ==
-  \/ \E c \in Callers, s \in Specs, api \in Apis, fails \in BOOLEAN : SReg(c, s, api, fails)
+  \/ \E c \in Callers, s \in Specs, api \in Apis, fails \in BOOLEAN, tm \in Timeouts : SReg(c, s, api, fails, tm)
   \/ \E b \in Batches, sl \in 0..MaxBatch : SFeed(b, sl)
-  \/ \E c \in Callers : SCancel(c) \/ SDue(c)
+  \/ \E c \in Callers : SCancel(c) \/ SDue(c) \/ SElapse(c)
   \/ \E conn \in Conns : SRelease(conn)
   \/ SObserve
   \/ SDStep
